@@ -34,6 +34,8 @@ class Recorder:
         self.fault = None        # (kind, k) raise at the k-th call of kind
         self.counts = {}
         self.mvn = False         # record multivariate_normal arguments
+        self.current_task = 0
+        self.task_buf = {}
 
     def emit(self, ev, **kw):
         kw["ev"] = ev
@@ -173,11 +175,23 @@ class RecPool:
         order = list(range(len(new_tasks)))
         self._rnd.shuffle(order)
         res = [None] * len(new_tasks)
-        for k in order:
-            self.rec.tick("task")
-            self.rec.emit("TaskBegin", call=self.ncalls, task=k + 1)
-            res[k] = worker(new_tasks[k])
-            self.rec.emit("TaskEnd", call=self.ncalls, task=k + 1, n=int(len(res[k])))
+        self.rec.task_buf = {}
+        try:
+            for k in order:
+                self.rec.tick("task")
+                self.rec.current_task = k + 1
+                self.rec.emit("TaskBegin", call=self.ncalls, task=k + 1)
+                res[k] = worker(new_tasks[k])
+                self.rec.emit("TaskEnd", call=self.ncalls, task=k + 1, n=int(len(res[k])))
+        finally:
+            self.rec.current_task = 0
+            # what the sampler sees is the concatenation in TASK order, whatever the execution order was
+            for k in sorted(self.rec.task_buf):
+                ids, lls = self.rec.task_buf[k]
+                self.rec.evaluated.extend(ids)
+                if hasattr(self.rec, "ll_values"):
+                    self.rec.ll_values.extend(lls)
+            self.rec.task_buf = {}
         return res
 
     def close(self):
@@ -206,8 +220,17 @@ def make_rec_helper_class():
                 for j, i in enumerate(ids):
                     if i in rec.inject:
                         ll[j] = rec.inject[i]
-            rec.evaluated.extend(ids)
-            rec.emit("Eval", rows=[int(i) for i in ids], ll=tokens.ord_tokens(ll), helper=id(self) % 100000)
+            task = getattr(rec, "current_task", 0)
+            if task:
+                b = rec.task_buf.setdefault(task, ([], []))
+                b[0].extend(ids)
+                b[1].extend(float(x) for x in ll)
+            else:
+                rec.evaluated.extend(ids)
+                if hasattr(rec, "ll_values"):
+                    rec.ll_values.extend(float(x) for x in ll)
+            rec.emit("Eval", rows=[int(i) for i in ids], ll=tokens.ord_tokens(ll), helper=id(self) % 100000,
+                     _llv=[float(x) for x in ll], task=task)
             return ll
 
         def batch_get_posterior_samples(self, chunk, n_linear_samples_per, rng):
